@@ -4,6 +4,7 @@
 package interp
 
 import (
+	"bytes"
 	"encoding/base64"
 	"fmt"
 	"go/token"
@@ -274,6 +275,13 @@ func concBytes(v value) ([]byte, bool) {
 		return []byte(x), true
 	case symstr:
 		bs = x
+	case *blob:
+		// a JSON blob without symbolic leaves is its text
+		var tb bytes.Buffer
+		if x != nil && jsonText(&tb, x.root) {
+			return tb.Bytes(), true
+		}
+		return nil, false
 	default:
 		return nil, false
 	}
@@ -872,7 +880,11 @@ func init() {
 		if b, ok := concBytes(args[1]); ok {
 			return e.enc().EncodeToString(b)
 		}
-		return fr.i.path.env.b64Token(e.name, args[1].([]value))
+		bs, ok := args[1].([]value)
+		if !ok {
+			panic(unsupported{"base64 of a JSON blob with symbolic leaves"})
+		}
+		return fr.i.path.env.b64Token(e.name, bs)
 	})
 	E("(*encoding/base64.Encoding).DecodeString", func(fr *frame, args []value) value {
 		e := encOf(args[0])
